@@ -67,10 +67,14 @@ def hasFlag (flags f : Nat) : Bool := (flags &&& f) != 0
 
 /-! ### the repaired native iterator: names collected and sorted with `strcmp` (fixes/C11-sorted-readdir.patch) -/
 
-/-- one step of insertion sort by name (first position whose name is not smaller) -/
-def insertByName (x : HNode) : List HNode → List HNode
+/-- the loop of `insert_sorted` (fstree.c), generic in the element type: skip while `strcmp(it->name, x->name) < 0`,
+link `x` in front of the first element that is not smaller -/
+def insertBy {α : Type} (key : α → Name) (x : α) : List α → List α
   | [] => [x]
-  | y :: ys => if nameLt y.name x.name then y :: insertByName x ys else x :: y :: ys
+  | y :: ys => if nameLt (key y) (key x) then y :: insertBy key x ys else x :: y :: ys
+
+/-- one step of insertion sort by name -/
+def insertByName (x : HNode) (l : List HNode) : List HNode := insertBy HNode.name x l
 
 /-- `qsort(names, count, …, strcmp)` — on pairwise different names every correct sort returns this list -/
 def sortByName (l : List HNode) : List HNode := l.foldr insertByName []
@@ -161,9 +165,7 @@ def childByName : List TNode → Name → Option TNode
   | c :: cs, n => if c.name = n then some c else childByName cs n
 
 /-- `insert_sorted`: skip while `strcmp(it->name, n->name) < 0` -/
-def insertSorted (n : TNode) : List TNode → List TNode
-  | [] => [n]
-  | it :: rest => if nameLt it.name n.name then it :: insertSorted n rest else n :: it :: rest
+def insertSorted (n : TNode) (children : List TNode) : List TNode := insertBy TNode.name n children
 
 /-- the in-place update of the child found by `child_by_name` (first with that name) -/
 def replaceChild (c' : TNode) : List TNode → List TNode
